@@ -51,3 +51,39 @@ def _negated(root: ast.AST, attr: ast.Attribute) -> bool:
         if isinstance(node, ast.Call) and ast.unparse(node.func).split(".")[-1] in ("logical_not", "invert") and attr in node.args:
             return True
     return False
+
+
+def occupancy_obligations(res, tree: Tree, rule: str) -> int:
+    """Sibling agreement between the mask and the step on what blocks a move: compute_action_mask forbids a move into a
+    cell occupied by another agent (it reads the positions of ALL agents), so the step-side resolution of one agent's
+    move -- where(blocked, own position, new position) inside the per-agent map -- must depend on the positions of all
+    agents as well.  (fix_collisions only sends back agents that END on the same cell; an agent stepping onto a cell
+    that another agent holds and fails to leave is a different case.)  Decided on the value-flow graph of step."""
+    from ..engine import analyse_env
+    from ..normal import strip_cast
+    from ..terms import contains, deps, uncopy
+    from .common import env_site, txt
+    cis = [c for c in tree.environment_classes() if c.name == "LevelBasedForaging"]
+    if not cis:
+        raise AnalysisError("environment LevelBasedForaging not found")
+    ea = analyse_env(tree, cis[0])
+    vfg = ea.vfg
+    agents = vfg.mk_attr(ea.state, "agents")
+    allpos = vfg.mk_attr(agents, "position")
+    site, fn = env_site(ea, "step")
+    found = []
+    for t in deps(ea.step_result):
+        if t.kind == "choice" and t.args[0] in ("where", "select") and len(t.args[2]) == 2:
+            for x in t.args[2]:
+                x = uncopy(strip_cast(x))
+                if x.kind == "attr" and x.args[1] == "position" and x.args[0].kind == "elem" and uncopy(x.args[0].args[0]) is agents:
+                    found.append(t)
+    if not found:
+        res.add(rule, site, fn, "a move into a cell held by another agent is blocked by step as it is by the mask", None, "per-agent move resolution not found in the recognised form")
+        return 1
+    ok = all(contains(t.args[1], allpos) for t in found)
+    mask_f = tree.functions.get(LBF + "utils.compute_action_mask")
+    res.add(rule, site, fn, "a move into a cell held by another agent is blocked by step as it is by the mask", ok,
+            "the per-agent resolution where(blocked, own position, new position) reads the positions of all agents" if ok else
+            f"blocked = {txt(found[0].args[1], 3, 100)} does not depend on the other agents' positions, while the mask forbids moves into occupied cells")
+    return 1
